@@ -27,7 +27,7 @@ def demo():
     txt = open(os.path.join(src, "demo.py")).read()
     # demos were written against the author's own worktree path
     import re
-    txt = re.sub(r"/tmp/mut_wt_C\d+r?", wt, txt)
+    txt = re.sub(r"/tmp/mut_wt_C\d+[rs]?", wt, txt)
     open(os.path.join(d, "demo.py"), "w").write(txt)
     p = subprocess.run(["/venv/bin/python", "demo.py"], cwd=d, env=env, capture_output=True, text=True, timeout=900)
     shutil.rmtree(d, ignore_errors=True)
